@@ -484,3 +484,109 @@ def slack_next(eng, a0, i, log):
 def anclabel(eng, n):
     """the label '__a<n>'"""
     return SV(eng.facts.anc_label(zint(n)), "label")
+
+
+# ------------------------------------------------------------------ finite label sets (C14)
+def _lset(eng, v):
+    if isinstance(v, SetVal):
+        if eng.old is not None and id(v) in eng.old:
+            return eng.old[id(v)][0]
+        return v.mem
+    if isinstance(v, SV) and v.t == "lset":
+        return v.e
+    if isinstance(v, (DictVal, Ver)) or (isinstance(v, PObj) and v.store is not None):
+        ver = eng.store_of(v)
+        if ver.ksort != T.Label:
+            raise Unsupported("domain set of a dict that is not keyed by labels")
+        return ver.dom
+    raise Unsupported("label set expected")
+
+
+@spec
+def lset(eng, v):
+    return SV(_lset(eng, v), "lset")
+
+
+@spec
+def setcard(eng, v):
+    if isinstance(v, SetVal):
+        if eng.old is not None and id(v) in eng.old:
+            return SV(eng.old[id(v)][1], "int")
+        return SV(v.card, "int")
+    return SV(T.CARD(_lset(eng, v)), "int")
+
+
+@spec
+def members(eng, k):
+    eng.facts.enable_sets()
+    return SV(eng.facts.memset_of(eng.as_key(k)), "lset")
+
+
+@spec
+def union(eng, a, b):
+    return SV(eng.facts.set_union(_lset(eng, a), _lset(eng, b)), "lset")
+
+
+@spec
+def inter(eng, a, b):
+    return SV(eng.facts.set_inter(_lset(eng, a), _lset(eng, b)), "lset")
+
+
+@spec
+def subseteq(eng, a, b):
+    return SV(eng.facts.set_subset(_lset(eng, a), _lset(eng, b)), "bool")
+
+
+@spec
+def seteq(eng, a, b):
+    return SV(_lset(eng, a) == _lset(eng, b), "bool")
+
+
+@spec
+def domcard(eng, d):
+    """number of keys of a label-keyed dict, as CARD of its domain (facts along the version chain)"""
+    ver = eng.store_of(d)
+
+    def go(v):
+        if "domcard" in v.cache:
+            return v.cache["domcard"]
+        c = T.CARD(v.dom)
+        if v.kind == "empty":
+            eng.facts.add(c == 0)
+        elif v.kind == "base":
+            eng.facts.add(c >= 0)
+        elif v.kind == "set":
+            eng.facts.add(c == go(v.parent) + z3.If(z3.Select(v.parent.dom, v.k), 0, 1))
+        elif v.kind == "pop":
+            eng.facts.add(c == go(v.parent) - z3.If(z3.Select(v.parent.dom, v.k), 1, 0))
+        else:
+            raise Unsupported("domcard of a put-version")
+        v.cache["domcard"] = c
+        return c
+    return SV(go(ver), "int")
+
+
+@spec
+def bk(eng, o):
+    """bookkeeping invariant (C14): the variable counter is the size of the variable set; for labelled models the
+    mapping enumerates exactly the reported variables and the next free label is the number of mapped labels"""
+    vs = eng.get_attr_raw(o, "_variables")
+    nv = eng.get_attr_raw(o, "_num_binary_variables")
+    if eng.old is not None and id(vs) in eng.old:
+        mem, card = eng.old[id(vs)]
+    else:
+        mem, card = vs.mem, vs.card
+    parts = [zint(nv) == card]
+    if eng.db.is_subclass(o.cls, "BO"):
+        mp = eng.store_of(eng.get_attr_raw(o, "_mapping"))
+        parts.append(mp.dom == mem)
+        parts.append(zint(domcard(eng, mp)) == zint(eng.get_attr_raw(o, "_next_label")))
+    return SV(z3.And(*parts), "bool")
+
+
+@spec
+def anc_of(eng, o):
+    """the constraint-ancilla counter of a PCBO / PCSO (0 for the other classes)"""
+    if isinstance(o, PObj) and "_ancilla" in o.attrs:
+        return eng.get_attr_raw(o, "_ancilla")
+    return 0
